@@ -15,6 +15,11 @@ inline const Row* find(int kernel, int order, int real, int periodic){
 // measured over 300 cases: rotation median 5.6e-3 (max 0.55 potential, 0.65 force); uniform median 3.1e-5 (max 1.9e-3 / 5.9e-3)
 inline double convHard(int kernel){ return kernel == 1 ? 4.0 : 0.25; }      // per case
 inline double convMedian(int kernel){ return kernel == 1 ? 0.1 : 0.005; }   // median over a campaign (>= 25 eligible cases)
+// order chain of the uniform kernel (orders 3..8 on the same case): error(k+1)/error(k). Calibration (8 seeds x 80 cases, 2026-09-27):
+// medians 0.07..0.22 (potential), 0.16..0.27 (force) for every pair of adjacent orders; per-case maxima 23 (potential: order 3 can be
+// accidentally accurate), 3.2 (force)
+inline double chainHard(){ return 200.0; }    // per case: ~8 x the largest ratio seen
+inline double chainMedian(){ return 0.5; }    // median over a campaign (>= 15 eligible cases): ~2 x the largest median seen
 inline double boundPot(int kernel, int order, int real, bool periodic){ const Row* r = find(kernel, order, real, periodic ? 1 : 0); return r ? r->pot : 1e300; }
 inline double boundForce(int kernel, int order, int real, bool periodic){ const Row* r = find(kernel, order, real, periodic ? 1 : 0); return r ? r->force : 1e300; }
 }
